@@ -8,7 +8,7 @@ from vmc.ref.projects import TypeDef, EXTERNAL_ACCESS, type_name, hidden_symbol_
 from .harness import call
 
 META = {
-    "rule": "projects {P1 atoms, P2 structures, P3 scopes/system symbols, P4 scale} x personalities {v17, v18, v20, v21, v32, m800} (both sides of every firmware boundary) x scopes "
+    "rule": "projects {P0 = the repository's demo project rebuilt from tests/pycomm3.L5X, P1 atoms, P2 structures, P3 scopes/system symbols, P4 scale} x personalities {v17, v18, v20, v21, v32, m800} (both sides of every firmware boundary) x scopes "
     "{controller only, '*', one program}; the controller's choices - entries per symbol page (every break point) and bytes per "
     "template fragment (a cut at every byte class of the definition) - are explored with iterative deviation bounding "
     "(bound 1 quick, 2 thorough), plus the forced modes one-entry-per-page and 1-/2-/3-byte template fragments. An execution "
@@ -229,6 +229,12 @@ def shards(tier, seed):
                     continue
                 sh.append(("explore", pn, pers, scope))
                 sh.append(("forced", pn, pers, scope))
+    # P0: the demo project rebuilt from tests/pycomm3.L5X (a v20 controller; also served as v32)
+    for pers in ("v20", "v32"):
+        for scope in SCOPES:
+            sh.append(("explore", "P0", pers, scope))
+            sh.append(("forced", "P0", pers, scope))
+    sh.append(("fixture", "P0", "v20", "all"))
     return sh
 
 
@@ -255,11 +261,68 @@ def report_exec(rep, cfg, ctx, out, force=None):
                           {"cfg": list(cfg), "choices": list(ctx.choices), "force": list(force) if force else None})
 
 
+def fixture_shard(rep):
+    """P0 uploaded through the library must reproduce the recorded upload (tests/offline/all_tags.json) field for field,
+    for every tag whose type has not changed since the recording; and the L5X binding of the reference model must hold."""
+    import pycomm3
+    from vmc.ref import p0
+
+    proj = p0.load()
+    ntags, nleaf, mism = p0.conformance(proj)
+    rep.add("p0_tags", ntags)
+    rep.add("p0_leaf_values_matching_l5x", nleaf - len(mism))
+    if mism:
+        # the oracle itself disagrees with Rockwell's interpretation: that is a broken harness, not a verdict
+        raise AssertionError("reference model does not reproduce the L5X: " + "; ".join(mism[:3]))
+    ctl = logix.LogixController(proj, "v20")
+    t = enip.Target(ctl, keep_cip=False)
+    with net.World(t, io_budget=10**7):
+        d = pycomm3.LogixDriver("10.0.0.1")
+        o = call(d.open)
+        js = json.loads(json.dumps(d.tags_json)) if o == ("ok", True) else {}
+    fx = proj.fixture
+    same_version = {}
+
+    def comparable(name):
+        td = next((x for x in proj.types.values() if x.name == name), None)
+        rec = proj.fixture_types.get(name)
+        if td is None or rec is None or rec[2] is None:
+            return False
+        return {k for k in rec[2].get("internal_tags", {}) if not k.startswith("__")} == {m.name for m in td.members} and all(
+            comparable(v["data_type"]["name"]) for v in rec[2]["internal_tags"].values() if isinstance(v.get("data_type"), dict))
+
+    def strip(x):
+        if isinstance(x, dict) and "attributes" in x and isinstance(x["attributes"], list):
+            # the recording predates the rule that hides CTL / Control of predefined types
+            x = dict(x, attributes=[a for a in x["attributes"] if a not in ("CTL", "Control")])
+        if isinstance(x, dict):
+            return {k: strip(v) for k, v in x.items() if k not in ("symbol_address", "symbol_object_address", "software_control", "object_definition_size") and not str(k).startswith("__")}
+        return x
+    n = 0
+    for name, rec in fx.items():
+        got = js.get(name)
+        if got is None:
+            continue  # module tags etc. are not part of the L5X export
+        if rec.get("tag_type") == "struct" and not comparable(rec["data_type_name"]):
+            continue
+        n += 1
+        df = diff(strip(got), strip(rec))
+        rep.case(("fixture", name), outcome="ok" if not df else "differs")
+        for dd in df[:2]:
+            rep.violation(f"fixture/{classify('/tags/x' + dd.split(':')[0])}", f"P0 {name}: uploaded definition differs from the recorded upload: {dd}", {"cfg": ["P0", "v20", "all"], "choices": [], "force": None})
+    rep.sample({"fixture_tags_compared": n, "p0_tags": ntags, "l5x_leaf_values_checked": nleaf})
+
+
 def run_shard(shard, tier, seed):
     rep = Report()
     kind, pn, pers, scope = shard
+    if kind == "fixture":
+        fixture_shard(rep)
+        return rep
     cfg = (pn, pers, scope)
     image = seed % 4
+    if pn == "P0":
+        image = 0
     if kind == "explore":
         sc = scenario_for(pn, pers, scope, image=image)
         check_deterministic(sc)
